@@ -33,11 +33,22 @@ func (rc *arrayCodec) Read(r *ReadBuf, p unsafe.Pointer) error {
 			}
 		}
 
-		// If our array is nil or undersized then we can fix it up here.
-		*sh = rc.resizeSlice(*sh, int(count))
+		if count < 0 {
+			return fmt.Errorf("invalid array block count %d", count)
+		}
 
 		itemSize := rc.itemType.Size()
 		for i := int64(0); i < count; i++ {
+			if sh.Len == sh.Cap {
+				// Make room. The block count is only trusted as far as there
+				// is input left to back it up, so a corrupt count cannot make
+				// us allocate more than the data could ever fill.
+				n := count - i
+				if limit := int64(r.Len()) + 16; n > limit {
+					n = limit
+				}
+				*sh = rc.resizeSlice(*sh, int(n))
+			}
 			cursor := unsafe.Pointer(uintptr(sh.Data) + uintptr(sh.Len)*itemSize)
 			if err := rc.itemCodec.Read(r, cursor); err != nil {
 				return fmt.Errorf("failed to decode array entry %d. %w", i, err)
@@ -87,15 +98,19 @@ func (rc *arrayCodec) New(r *ReadBuf) unsafe.Pointer {
 	return r.Alloc(sliceType)
 }
 
-// resizeSlice increases the length of the slice by len entries
+// resizeSlice makes room for at least len more entries. Capacity at least
+// doubles, so an array that arrives as many small blocks is not re-copied for
+// every block.
 func (rc *arrayCodec) resizeSlice(in sliceHeader, len int) sliceHeader {
 	if in.Len+len <= in.Cap {
 		return in
 	}
-	// Will assume for now that blocks are sensible sizes
 	out := sliceHeader{
 		Cap: in.Len + len,
 		Len: in.Len,
+	}
+	if out.Cap < 2*in.Cap {
+		out.Cap = 2 * in.Cap
 	}
 	elemType := unpackEFace(rc.itemType).data
 	out.Data = unsafe_NewArray(elemType, out.Cap)
